@@ -49,7 +49,10 @@ EXCLUDE = {("Updater", "forward"): "C10.c accepts any value-equivalent write-bac
            ("MonitorPool", "del_monitor"): "as del_observed",
            (None, "poisson_interval"): "decided by the clauses C19.a/b/d; its vectorised masking / collision handling can be written in forms (indexed update, where, logical masks) that a summary comparison cannot identify"}
 MOVE = {("Conv2D", "selector"): "C06", ("LinearDense", "selector"): "C06", ("LinearDirect", "selector"): "C06", ("LinearLateral", "selector"): "C06",
-        (None, "normalize"): "C16", ("RecordTensor", "select"): "C02", ("RecordTensor", "insert"): "C02"}
+        (None, "normalize"): "C16", ("RecordTensor", "select"): "C02", ("RecordTensor", "insert"): "C02",
+        # core.tensor helpers go to the property whose mechanism is built on them
+        (None, "fullc"): "C02", (None, "zeros"): "C13", (None, "ones"): "C13", (None, "empty"): "C13", (None, "full"): "C13",
+        (None, "uniform"): "C19", (None, "normal"): "C19", (None, "scalar"): "C20", (None, "astensors"): "C20"}
 
 import signal
 
